@@ -53,7 +53,12 @@ fn interesting_numbers(rng: &mut Rng) -> String {
             ((t as i128 + d) as u128).to_string()
         }
         5 => format!("{}{}", 1 + rng.below(9), "0".repeat(6 + rng.usize_below(16))),
-        6 => format!("00{}", rng.below(100)),
+        6 => {
+            // zero padding, also far beyond 19 / 20 digits in total: the value is what counts
+            let zeros = *rng.pick(&[1usize, 2, 10, 17, 18, 19, 20, 25]);
+            let v = if rng.chance(1, 2) { rng.below(100).to_string() } else { (rng.next_u64() >> rng.below(40)).to_string() };
+            format!("{}{}", "0".repeat(zeros), v)
+        }
         _ => (rng.next_u64() >> rng.below(60)).to_string(),
     }
 }
@@ -82,9 +87,11 @@ fn yaml_quote(s: &str) -> String {
 fn size_case(rep: &mut Report, rng: &mut Rng, idx: u64) {
     let digits = interesting_numbers(rng);
     let n: u128 = digits.parse().unwrap();
-    let kind = rng.below(10);
+    let kind = rng.below(11);
     // (literal, scalar form, expectation)
     let (lit, as_int, want) = match kind {
+        // no number at all: the empty string, white space, a bare unit
+        10 => (format!("{}{}{}", ws(rng), if rng.chance(1, 3) { "" } else { rng.pick(&SIZE_UNITS[..]).0 }, ws(rng)), false, Want::Err),
         0 => (n.to_string(), true, if n <= u64::MAX as u128 { Want::Val(n) } else { Want::Err }),
         1 => (digits.clone(), false, if n <= u64::MAX as u128 { Want::Val(n) } else { Want::Err }),
         2 => (format!("-{}", rng.below(100) + 1), rng.chance(1, 2), Want::Err),
@@ -153,8 +160,9 @@ fn interval_case(rep: &mut Report, rng: &mut Rng, idx: u64) {
     let digits = interesting_numbers(rng);
     let n: u128 = digits.parse().unwrap();
     let fits = n <= i64::MAX as u128;
-    let kind = rng.below(10);
+    let kind = rng.below(11);
     let (lit, as_int, want): (String, bool, Option<(u8, u128)>) = match kind {
+        10 => (format!("{}{}{}", ws(rng), if rng.chance(1, 3) { "" } else { rng.pick(&TIME_UNITS[..]).0 }, ws(rng)), false, None),
         0 => (n.to_string(), true, if fits { Some((0, n)) } else { None }),
         1 => (digits.clone(), false, if fits { Some((0, n)) } else { None }),
         2 => (format!("-{}", rng.below(100) + 1), rng.chance(1, 2), None),
